@@ -111,6 +111,10 @@ def _len(e, st, node, x):
         return c
     if isinstance(v, RecV) and '__len__' in v.fields:
         return v.fields['__len__']
+    if is_sym(v) and v.sort().name() == 'Obj':
+        ln = z3.Function('LEN', v.sort(), z3.IntSort())(v)
+        st.pc.append(ln >= 0)
+        return ln
     raise Unsupported('len of %r' % (v,))
 
 
@@ -236,7 +240,41 @@ def _hasattr(e, st, node, o, name):
 
 @prim('callable')
 def _callable(e, st, node, o):
+    if is_sym(o) and o.sort().name() == 'Obj':
+        return z3.Function('IS_CALLABLE', o.sort(), z3.BoolSort())(o)
     return isinstance(o, (Func, Metric))
+
+
+@prim('getattr')
+def _getattr(e, st, node, o, name, *default):
+    base = o.name if isinstance(o, Func) else str(o)
+    if isinstance(name, Str):
+        return Func('%s.%s' % (base, name.s))
+    if is_sym(name) and name.sort().name() == 'Obj':
+        return z3.Function('GETATTR_' + base.replace('.', '_'), name.sort(), name.sort())(name)
+    raise Unsupported('getattr')
+
+
+@prim('zip')
+def _zip(e, st, node, *xs):
+    return Tup([Opaque('zip')] + list(xs))
+
+
+@prim('range')
+def _range(e, st, node, *xs):
+    return Tup([Opaque('range')] + [to_z3(x) for x in xs])
+
+
+@prim('TrimMapping')
+def _trimmapping(e, st, node, pairs=None):
+    """TrimMapping(zip(range(n), range(n))) = the identity mapping on n states"""
+    O = sort_of('obj')
+    p = e.deref(st, pairs)
+    if isinstance(p, Tup) and isinstance(p.items[0], Opaque) and p.items[0].tag == 'zip' and len(p.items) == 3:
+        a, b = p.items[1], p.items[2]
+        if isinstance(a, Tup) and isinstance(b, Tup) and len(a.items) == 2 and len(b.items) == 2 and z3.eq(a.items[1], b.items[1]):
+            return z3.Function('IDENTITY_MAPPING', z3.IntSort(), O)(a.items[1])
+    raise Unsupported('TrimMapping of a general pair list')
 
 
 @prim('sum', 'np.sum')
